@@ -2,6 +2,8 @@ package streamwriter
 
 import (
 	"bytes"
+	"errors"
+	"io"
 )
 
 type size interface {
@@ -48,7 +50,9 @@ func (w *writer[SizeT, Req, Resp]) Close() error {
 	data := w.buf.Bytes()
 	if len(data) > 0 {
 		err := w.stream.Send(w.req(w.buf.Bytes()))
-		if err != nil {
+		// io.EOF means the other side has already answered:
+		// its verdict is what CloseAndRecv returns.
+		if err != nil && !errors.Is(err, io.EOF) {
 			return err
 		}
 	}
